@@ -5,8 +5,35 @@ CLAUSES = {"TimersSynchronousOnce", "NoCrash", "QuietAfterClose"}
 
 
 def run(res, work, tier, seed):
+    import os
     vlib.stage_specs(work)
+    # stopwatches and instrumented calls: sequential model + call histories over a driven clock
+    big = tier == "thorough"
+    cfg = vlib.write_cfg(work, "instr.cfg", "Instrument.cfg", {"MaxClk": 6 if big else 5, "MaxSw": 3 if big else 2, "MaxExec": 2})
+    vlib.mc_expect_ok(work, "Instrument.tla", cfg, "Instrument (stopwatch / Exec)", res, timeout=900)
+    for weak, inv in [("WeakStopwatchUsesStart", "StopwatchElapsed"), ("WeakBothCounters", "ExactlyOneOutcomeCounter"), ("WeakExecTwice", "ExecOnce")]:
+        c = vlib.write_cfg(work, "instr_%s.cfg" % weak, "Instrument.cfg", {weak: "TRUE"})
+        vlib.mc_expect_violation(work, "Instrument.tla", c, inv, weak, res, timeout=300)
+    out = os.path.join(work, "seq")
+    os.makedirs(out)
+    vlib.stage_specs(out)
+    vlib.run_vh(["c10seq", "-out", out, "-seed", seed, "-tier", tier])
+    meta = vlib.read_meta(out)
+    trace = os.path.join(out, "trace.ndjson")
+    fails, r = vlib.tlc_trace(out, "InstrumentTrace.tla", "InstrumentTrace.cfg", trace, meta["events"])
+    if r["violated"]:
+        fails.append((0, "ModelInvariant:" + ",".join(r["violated"]), None))
+    res.add_trace_run("InstrumentTrace", r, meta["histories"], meta["events"])
+    res.states += r["distinct"]; res.transitions += r["generated"]
+    lines = vlib.read_lines(trace)
+    res.judge_fails(fails, lines, lambda ln: vlib.case_context(lines, max(ln, 1), lambda s: '"e":"reset"' in s))
+    res.evaluations += meta["evals"]
+    res.distinct += meta["distinct"]
+    res.samples += meta["samples"][:3]
     vlib.run_core_family(res, work, "c10", tier, seed, parts=4, clauses=CLAUSES, timeout=3400)
-    res.rule = ("executions under the controlled scheduler: records on two timers in two scopes from two goroutines interleaved with report passes / the report loop / root Close "
+    res.rule = ("random call histories (tick / Start / Stop / Exec with nil and error outcomes) over a harness-driven package clock, on timers and duration histograms, "
+                "plain / cached / reporter-less test scope, clock units from 1ns to 3h: Stop must record exactly clock(Stop) - clock(Start), Exec runs f once, records one "
+                "latency, increments exactly the matching outcome counter and returns the very same error value. "
+                "executions under the controlled scheduler: records on two timers in two scopes from two goroutines interleaved with report passes / the report loop / root Close "
                 "(plain and cached): every Record window contains exactly one timer delivery with the same identity and duration on the recording goroutine, and no timer "
                 "delivery happens outside such a window (passes neither repeat nor buffer timers); durations include 0, negative, Min/MaxInt64.")
